@@ -465,7 +465,8 @@ def partitions(tier):
     add("t2:unknown", "t2_unknown", S=48)
     add("t2:tiny:1:3", "t2_tiny", size_byte=1, ndata=3)
     if tier != "quick":
-        add("t2:tiny:1:4", "t2_tiny", size_byte=1, ndata=4)
+        add("t2:tiny:2:3", "t2_tiny", size_byte=2, ndata=3)
+        add("t2:tiny:6:3", "t2_tiny", size_byte=6, ndata=3)
     add("t2:gone", "t2_gone", S=48, n=20)
     for pages in (16, 20, 45):
         add("t2:version:%d" % pages, "t2_version", phys_pages=pages)
@@ -505,8 +506,8 @@ def partitions(tier):
 
 
 MUST_REACH = ["activate_none", "ndef_none", "ndef_object"]
-BOUNDS = {"quick": "mutations of valid layouts with symbolic mutated fields (see module docstring); fully symbolic T2 image of 4 data bytes; ATS of 1..7 symbolic bytes; silence at every command index",
-          "thorough": "fully symbolic T2 images of 6 data bytes; ATS up to 9 bytes"}
+BOUNDS = {"quick": "mutations of valid layouts with symbolic mutated fields (see module docstring); fully symbolic T2 image of 3 data bytes; ATS of 1..7 symbolic bytes; silence at every command index",
+          "thorough": "fully symbolic T2 images of 3 data bytes under three CC sizes; ATS up to 9 bytes; two arbitrary ISO-DEP blocks"}
 OUTSIDE = ["fully symbolic images larger than stated", "more than one mutated structure per image", "NXP GET_VERSION/signature answer variants (concrete in C20's model)"]
 ASSUMPTIONS = ["tags answer well-framed: the simulators of env/tags.py with mutated contents"]
 LIMITS = {"quick": dict(max_steps=400000)}
